@@ -104,6 +104,7 @@ fn main() {
     let code = match prop.as_str() {
         "C01" => dispatch(&props::c01::C01, &mode, &opts),
         "C02" => dispatch(&props::c02::C02, &mode, &opts),
+        "C03" => dispatch(&props::c03::C03, &mode, &opts),
         "C06" => dispatch(&props::c06::C06, &mode, &opts),
         "C10" => dispatch(&props::c10::C10, &mode, &opts),
         "C11" => dispatch(&props::c11::C11, &mode, &opts),
